@@ -95,30 +95,34 @@ def check_modified(ctx, name, quick):
 
     mesh = meshes.get(name, ctx.seed)
     grid = SP.make_grid(mesh)
-    par = ops.params(4, 4)
     p0 = SP.make_space(grid, {"kind": "DP0"})
     p1 = SP.make_space(grid, {"kind": "P1", "inc": True})
     pts = np.array([[2.1, 0.3, 0.4], [0.5, 0.5, 3.0], [-1.0, -1.2, -0.7]]).T
     combos = [("single_layer", p0, p0), ("double_layer", p1, p0), ("adjoint_double_layer", p0, p1), ("hypersingular", p1, p1)]
-    for w in ([0.1, 1.0, 5.0] if not quick else [0.1, 5.0]):
+    # "all quadrature orders": orders that differ from the global defaults (4, 4) - the imaginary-wavenumber branch of the Helmholtz
+    # factories forwards to the modified Helmholtz ones and must forward the parameter object too
+    import itertools
+
+    for w, (r_, s_) in itertools.product([0.1, 1.0, 5.0] if not quick else [0.1, 5.0], [(3, 5)] if quick else [(4, 4), (3, 5), (6, 2)]):
+        par = ops.params(r_, s_)
         for opn, dom, dual in combos:
-            case = {"sub": "modified", "mesh": name, "omega": w, "operator": opn}
+            case = {"sub": "modified", "mesh": name, "omega": w, "operator": opn, "orders": [r_, s_]}
             try:
                 Hm = ops.dense(ops.boundary("helmholtz", opn, dom, dom, dual, k=1j * w, par=par))
                 Mm = ops.dense(ops.boundary("modified_helmholtz", opn, dom, dom, dual, k=w, par=par))
                 ctx.check_close("imaginary-wavenumber/boundary/%s" % opn, case, Hm, Mm, TOL, "helmholtz(iw)=modified(w)")
-                ctx.case((name, "mod", opn, w), sub="modified")
+                ctx.case((name, "mod", opn, w, r_, s_), sub="modified")
                 for eps in (1e-6, 1e-9):
                     He = ops.dense(ops.boundary("helmholtz", opn, dom, dom, dual, k=eps + 1j * w, par=par))
                     err = float(np.max(np.abs(He - Mm)) / np.max(np.abs(Mm)))
                     ctx.observe("vanishing-real-part(err/eps)", err / eps, 10.0 * max(1.0, w * diameter(mesh)) * 4)
                     if err > 10 * eps * max(1.0, w * diameter(mesh)) * 4:
                         ctx.violation("imaginary-wavenumber/limit/%s" % opn, dict(case, eps=eps), "helmholtz(eps+iw) differs from modified(w) by %.2e for eps=%.0e" % (err, eps))
-                    ctx.case((name, "lim", opn, w, eps), sub="modified")
+                    ctx.case((name, "lim", opn, w, eps, r_, s_), sub="modified")
             except Exception as exc:  # noqa: BLE001
                 ctx.violation("imaginary-wavenumber/boundary/%s/exception:%s" % (opn, type(exc).__name__), case, repr(exc))
         for opn, sp in (("single_layer", p0), ("double_layer", p1)):
-            case = {"sub": "modified", "mesh": name, "omega": w, "operator": "potential-" + opn}
+            case = {"sub": "modified", "mesh": name, "omega": w, "operator": "potential-" + opn, "orders": [r_, s_]}
             n = sp.global_dof_count
             c = np.cos(np.arange(n) + 0.2)
             try:
@@ -130,7 +134,7 @@ def check_modified(ctx, name, quick):
                     err = float(np.max(np.abs(ae - b)) / np.max(np.abs(b)))
                     if err > 10 * eps * max(1.0, w * 2 * diameter(mesh)) * 4:
                         ctx.violation("imaginary-wavenumber/limit/potential-%s" % opn, dict(case, eps=eps), "potential(eps+iw) differs from modified(w) by %.2e" % err)
-                ctx.case((name, "modpot", opn, w), sub="modified")
+                ctx.case((name, "modpot", opn, w, r_, s_), sub="modified")
             except Exception as exc:  # noqa: BLE001
                 ctx.violation("imaginary-wavenumber/potential/%s/exception:%s" % (opn, type(exc).__name__), case, repr(exc))
 
